@@ -27,6 +27,7 @@ pub struct Unit {
     pub chains: Vec<(String, String, String)>, // method `b` called on the result of method `a` is renamed
     pub defines: Vec<(String, String)>,  // `${NAME}` placeholders in spec files
     pub broadcasts: Vec<String>,      // broadcast groups made available at the entry of every extracted body (ghost only)
+    pub eagersync: BTreeSet<String>,  // eager names whose un-awaited call is a synchronous call of a same-named function (not a future value)
     pub adapters_off: bool,
     pub extracts: Vec<Extract>,
 }
@@ -46,6 +47,7 @@ impl Unit {
                 "specref" => u.specrefs.extend(words()),
                 "eager" => { u.eager.extend(words()); u.traced.extend(words()); }
                 "traced" => u.traced.extend(words()),
+                "eagersync" => { u.eagersync.extend(words()); u.eager.extend(words()); u.traced.extend(words()); }
                 "ufcs" => u.ufcs.extend(words()),
                 "broadcast" => u.broadcasts.extend(words()),
                 "define" => { let w: Vec<String> = words().collect(); if w.len() == 2 { u.defines.push((w[0].clone(), w[1].clone())); } }
